@@ -222,3 +222,29 @@ func TestRegressResumeManyChunks(t *testing.T) {
 	}
 	stats.Count("pinned_resume_many_chunks", n)
 }
+
+// Every metadata read of the scan fails once, one position at a time (bundle descriptors, file lists, listing
+// pages): whatever build-reverse-lookup then reports, bundles whose blobs are shared with nobody must survive
+// the delete-unused that follows a reported success.
+func TestRegressMetadataReadFailures(t *testing.T) {
+	n := 0
+	for _, f := range []faultT{
+		{Store: "meta", Op: memstore.OpGet, Key: "bundle.yaml"},
+		{Store: "meta", Op: memstore.OpGet, Key: "bundle-files"},
+		{Store: "meta", Op: memstore.OpKeysPrefix, Key: ""},
+		{Store: "meta", Op: OpGetShort, Key: "bundle.yaml"},
+		{Store: "meta", Op: OpGetShort, Key: "bundle-files"},
+	} {
+		for nth := 1; nth <= 6; nth++ {
+			f := f
+			f.Phase, f.Nth, f.Times = "index", nth, 1
+			pinned(t, "", "", caseT{
+				Shape: purgex.Shape{Repos: []int{2}, Leaves: []uint32{1024}}, Chunk: 4, Parallel: 1 + nth%3,
+				Pre:    []purgex.Op{up(0, file("a", 11, 0, 1)), up(1, file("b", 12, 2)), up(0, file("c", 13, 1, 1)), up(1, file("gone", 14, 2, 2)), {Kind: purgex.OpDelBundle, Repo: 1, Pick: 1}},
+				Faults: []faultT{f},
+			})
+			n++
+		}
+	}
+	stats.Count("pinned_metadata_read_failures", n)
+}
